@@ -884,3 +884,76 @@ Proof.
         destruct MX as [_ [C _]]. fold w' in C. rewrite C, G in SS. cbn [ser_slot] in SS.
         destruct SS as [m'' [G'' _]]. congruence.
 Qed.
+
+(* ------------------------------------------------------------------ *)
+(* the fuel of ser_loop is enough: the result does not depend on it *)
+
+Definition unmarked (w : slw) (x : entity) : bool := match mk_get w x with None => true | Some _ => false end.
+
+Lemma l_entities_nodup s : NoDup (l_entities s).
+Proof.
+  unfold l_entities. pose proof (NM.elements_3w (cells s)) as H.
+  induction H as [|[i c] l Hn Hnd IH]; cbn [filter map]; [constructor|].
+  cbn [snd]. destruct (occupied c); [|assumption].
+  cbn [map fst snd]. constructor; [|assumption].
+  intros X. apply in_map_iff in X. destruct X as [[j d] [E Y]]. cbn [fst snd] in E. inversion E; subst j.
+  apply filter_In in Y. destruct Y as [Y _]. apply Hn. apply InA_alt. exists (i, d). split; [reflexivity | assumption].
+Qed.
+
+Lemma filter_len_le {A} (f : A -> bool) l : (length (filter f l) <= length l)%nat.
+Proof. induction l as [|x l IH]; cbn [filter length]; [lia|]. destruct (f x); cbn [length]; lia. Qed.
+
+Lemma count_step E w w1 new : NoDup E -> (forall x, w_alive w x = true -> In x E) -> mext w w1 ->
+  (forall x m, In (x, m) new -> mk_get w x = None /\ mk_get w1 x = Some m) -> NoDup (map fst new) ->
+  (length (filter (unmarked w1) E) + length new <= length (filter (unmarked w) E))%nat.
+Proof.
+  intros NE AE [A [_ M]] Hnew ND.
+  assert (NoDup (filter (unmarked w1) E ++ map fst new)) as NA.
+  { apply NoDup_app_intro; [apply NoDup_filter; assumption | assumption|].
+    intros x H1 H2. apply filter_In in H1. destruct H1 as [_ U]. unfold unmarked in U.
+    apply in_map_iff in H2. destruct H2 as [[x' m] [E' H2]]. cbn [fst] in E'. subst x'.
+    destruct (Hnew _ _ H2) as [_ G]. rewrite G in U. discriminate. }
+  assert (incl (filter (unmarked w1) E ++ map fst new) (filter (unmarked w) E)) as IA.
+  { intros x H. apply in_app_or in H. apply filter_In. destruct H as [H|H].
+    - apply filter_In in H. destruct H as [HE U]. split; [assumption|]. unfold unmarked in *.
+      destruct (mk_get w x) as [m|] eqn:G; [|reflexivity]. rewrite (M _ _ G) in U. discriminate.
+    - apply in_map_iff in H. destruct H as [[x' m] [E' H]]. cbn [fst] in E'. subst x'.
+      destruct (Hnew _ _ H) as [G G1]. split; [|unfold unmarked; rewrite G; reflexivity].
+      apply AE. rewrite <- A. apply mk_get_iff in G1. apply G1. }
+  pose proof (NoDup_incl_length NA IA) as L. rewrite app_length, map_length in L. exact L.
+Qed.
+
+Lemma ser_loop_nil fuel w nc : ser_loop fuel w nc [] = (w, Some []).
+Proof. destruct fuel; reflexivity. Qed.
+
+Lemma fuel_enough nc E : NoDup E -> forall fuel w todo, Inv w -> (forall x, w_alive w x = true -> In x E) ->
+  (length (filter (unmarked w) E) < fuel)%nat ->
+  forall fuel', (fuel <= fuel')%nat -> ser_loop fuel' w nc todo = ser_loop fuel w nc todo.
+Proof.
+  intros NE. induction fuel as [|f IH]; intros w todo HI AE Hc fuel' Hle; [lia|].
+  destruct fuel' as [|f']; [lia|].
+  destruct todo as [|p todo]; [reflexivity|].
+  rewrite !ser_loop_S.
+  destruct (ser_round_spec nc (p :: todo) w [] HI) as [new [E1 [P1 _]]].
+  destruct (ser_round (w, []) nc (p :: todo)) as [[w1 add1] r1]. cbn [fst snd app] in *. subst add1.
+  destruct r1 as [dr|]; [|reflexivity].
+  destruct new as [|q new].
+  - rewrite !ser_loop_nil. reflexivity.
+  - rewrite (IH w1 (q :: new)); [reflexivity | apply (p_inv _ _ _ _ _ _ P1) | | | lia].
+    + intros x A. apply AE. destruct (p_mext _ _ _ _ _ _ P1) as [A1 _]. rewrite <- A1. assumption.
+    + pose proof (count_step E w w1 (q :: new) NE AE (p_mext _ _ _ _ _ _ P1)) as C.
+      assert (forall x m, In (x, m) (q :: new) -> mk_get w x = None /\ mk_get w1 x = Some m) as Hn.
+      { intros x m H. destruct (p_new _ _ _ _ _ _ P1 _ _ H) as [G [G1 _]]. auto. }
+      specialize (C Hn (p_nd _ _ _ _ _ _ P1)). cbn [length] in C. lia.
+Qed.
+
+(* more fuel changes nothing: a [None] of serialize_recursive is a panic of
+   the code (a reference to a dead entity), never exhaustion *)
+Theorem serialize_recursive_fuel w nc fuel' : Inv w -> (S (length (l_entities (sl_life w))) <= fuel')%nat ->
+  ser_loop fuel' w nc (join_marked w) = serialize_recursive w nc.
+Proof.
+  intros HI Hle. unfold serialize_recursive.
+  apply (fuel_enough nc (l_entities (sl_life w)) (l_entities_nodup _)); try assumption.
+  - intros x A. apply life_entities_alive. assumption.
+  - pose proof (filter_len_le (unmarked w) (l_entities (sl_life w))). lia.
+Qed.
